@@ -165,6 +165,15 @@ int run(const Args& A) {
                 t = tableOf(D, pool[r.below(unsigned(pool.size()))]->e);
                 t[r.below(unsigned(t.size()))] = randomValue(r, k, true);
             } else t = randomTable(r, D, k, dens[r.below(6)]);
+            if (k.el == edge_labeling::EVPLUS && r.chance(1, 3)) {
+                // 64-bit edge values: offsets beyond 2^31 / 2^32 on some or all finite values (root edge value and,
+                // with a partial shift, inner edge values need more than 32 bits in the file)
+                static const long offs[] = {3000000000L, 5000000000L, (1L << 40) + 7, -(1L << 33)};
+                long o = offs[r.below(4)];
+                bool all = r.chance(1, 2);
+                for (auto& v : t) if (v.t == Val::I && (all || r.chance(1, 2))) v.n += o;
+                STATS.hit("gen.evplus.long-values");
+            }
             if (isMT(k) && k.rt == range_type::REAL && r.chance(1, 3)) {
                 // values that need the full printed precision (5 decimals survive the library's 1e-5
                 // terminal rounding; magnitudes in [64,1024) are avoided: float spacing ~ 1e-5 there
